@@ -49,7 +49,10 @@ def declare(E):
     E.contract(AH + "_generate_key_from_request", params={"algorithm": "str", "keyblob": "bytes"},
                returns="opt[opaque:PKey]", raises={"SSHException": "True", "Exception": "True"}, modifies=[])
     E.contract("PKey.verify_ssh_sig", argnames=["self", "data", "msg"], returns="bool",
-               ghost={"sig_ok": "result", "sig_blob": "data"})
+               ghost={"sig_ok": "result", "sig_blob": "data"},
+               # key classes can raise on malformed signature blobs (C35); the handler must not treat that as valid
+               raises={"Exception": {"when": "True", "ghost": {"verify_raised": "True"}}})
+    E.declare_ghost(verify_raised="bool")
     E.contract(AH + "_get_key_type_and_bits", returns="tuple[str,bytes]",
                ensures=["result[1] == fn('key_bits', 'bytes', key)", "len(result[1]) < 2**32"], modifies=[])
     E.contract("paramiko.ssh_gss.GSSAuth", returns="opaque:GSS", raises={"ImportError": "True"})
@@ -90,7 +93,7 @@ def declare(E):
     E.contract(AH + "_parse_userauth_request", params={"m": "obj:Message"},
                requires={"msg_pos": "0 <= m.packet.tell() and m.packet.tell() <= len(m.packet.getvalue())",
                          "fail_count_sane": "0 <= self.auth_fail_count",
-                         "fresh_request": "not ghost('app_consulted') and not ghost('sig_ok') and not ghost('disconnected') and not ghost('gss_failed')"},
+                         "fresh_request": "not ghost('app_consulted') and not ghost('sig_ok') and not ghost('disconnected') and not ghost('gss_failed') and not ghost('verify_raised')"},
                ensures={
                    "application_only_consulted_for_the_pinned_username":
                        "implies(ghost('consult_count') != old(ghost('consult_count')),"
@@ -106,7 +109,7 @@ def declare(E):
                },
                returns="none",
                raises={"EOFError": "True", "OSError": "True", "SSHException": "True", "UnicodeDecodeError": "True",
-                       "ImportError": "True", "struct.error": "True", "Exception": "ghost('gss_failed')"},
+                       "ImportError": "True", "struct.error": "True", "Exception": "ghost('gss_failed') or ghost('verify_raised')"},
                modifies=None)
     E.declare_ghost(gss_failed="bool")
     # ---- gssapi-with-mic delegate handler
